@@ -655,6 +655,12 @@ def call(name, args, ctx):
         if ctx.keys is None:
             raise XPathError('no keys')
         return ctx.keys(to_str(ev(0)), ev(1), ctx)
+    if name == 'xalan:nodeset':
+        need(1)
+        v = ev(0)
+        if not isinstance(v, NodeSet):
+            raise XPathError('nodeset() of a non-node-set')
+        return v
     if name == 'generate-id' or name == 'document':
         raise XPathError('unsupported in reference: ' + name)
     raise XPathError('unknown function ' + name)
